@@ -2228,6 +2228,26 @@ def _t14():
             if z3.is_int_value(k):
                 key = {HandshakeType.certificate_verify: 'msg_cv', HandshakeType.certificate: 'msg_cert',
                        HandshakeType.client_key_exchange: 'msg_cke'}.get(k.as_long(), 'msg_other')
+        if key == 'msg_cke' and st.ghost.get('msg_cert') is not None:
+            # C06: the client Certificate is mandatory after a CertificateRequest; the only tolerated substitute is the
+            # SSLv3 no_certificate warning (RFC 6101 5.6.6) -- any other alert in its place must abort
+            from tlslite.messages import Alert as _Alert
+            from pyvc.values import str_id
+            m = T(st.ghost['msg_cert'])
+            isinst = z3.Function('v_isinstance', Val, smt.I, smt.B)
+            is_alert = isinst(m, z3.IntVal(str_id(repr([_Alert]))))       # the term builtins_model.m_isinstance builds
+            me = st.env['self']
+            ver = T(st.heap[(me.oid, 'version')]) if (me.oid, 'version') in st.heap else None
+            pre = z3.And(is_alert, truthy(st.ghost.get('cert_alert_admitted', VBool(z3.BoolVal(True)))))
+            ob(ex, st, 'C06:an-alert-in-place-of-the-client-Certificate-is-tolerated-only-in-SSLv3',
+               z3.Implies(pre, z3.BoolVal(ver is not None) if ver is None else ver == tup(3, 0)), kind='m2')
+            ob(ex, st, 'C06:an-alert-in-place-of-the-client-Certificate-is-tolerated-only-if-it-is-no_certificate',
+               z3.Implies(pre, attr_t('description', m) == v_int(z3.IntVal(AlertDescription.no_certificate))), kind='m2')
+        if key == 'msg_cert':
+            # (_getMsg hands back an Alert only when ContentType.alert is among the expected content types: gate contract)
+            a0 = args[0] if args else None
+            admitted = isinstance(a0, VTuple) and any(is_const_int(x, ContentType.alert) for x in a0.items)
+            st.ghost['cert_alert_admitted'] = VBool(z3.BoolVal(bool(admitted)))
         st.ghost[key] = r
         st.ghost['t_' + key] = tick()
         return [Outcome('normal', st, r)]
@@ -2382,7 +2402,7 @@ def _t14():
 
 
 _spec14, _check14, _setup14 = _t14()
-m2s('_serverCertKeyExchange/client-auth-and-uniformity', ('C05', 'C11'), SCK, _spec14, check=_check14, setup=_setup14,
+m2s('_serverCertKeyExchange/client-auth-and-uniformity', ('C05', 'C11', 'C06'), SCK, _spec14, check=_check14, setup=_setup14,
     opts={'pure_slice': True},
     doc='TLS<=1.2 server: a client chain is returned only if CertificateVerify verified (offered scheme in 1.2, '
         'checked end-entity key of that chain, transcript snapshot after ClientKeyExchange); after the key exchange '
